@@ -5,7 +5,7 @@ from vstat.loader import AnalysisError
 from vstat.terms import IT, CMP, ordered, builder, show, SELF, NONE, G, alts, walk, mentions, phi, strip_none
 from vstat.guards import path_conditions, exception_name
 from vstat.cfg import cfg_of, EXIT, RAISE
-from vstat.sigs import bind
+from vstat.sigs import bind, bind_arange
 from vstat import algebra
 from .ctor import ctor_stores
 
@@ -485,24 +485,25 @@ def grid(prog, rep):
     c2 = cfg_of(f2)
     okg = False
     why = "cell-centre grid construction not found"
+    # the list handed to cell_averaged_joint_pdf, whichever way it is built (loop with append = comprehension)
+    grids = []
     for st in c2.all_stmts():
-        if isinstance(st, ast.Assign) and isinstance(st.value, ast.Call):
-            t = b2.term(st.value, st)
-            if t[0] == "call" and t[1] == G("numpy.arange") and len(t[2]) == 3:
-                lp = c2.enclosing_loops(st)
-                if not lp:
-                    continue
-                it = b2.term(lp[-1].iter, lp[-1])
-                i = ("idx", f"{lp[-1].lineno}:{lp[-1].col_offset}", "enumerate")
-                lim = ("sub", lim_attr, i)
-                dl = ("sub", del_attr, i)
-                lo, hi, stp = t[2]
-                okg = it == ("call", G("enumerate"), (lim_attr,), ()) and lo == ("call", G("min"), (lim,), ()) and stp == dl \
-                    and algebra.same(hi, ("bin", "+", ("call", G("max"), (lim,), ()), dl))
-                why = (f"the grid of dimension i must be arange(min(limits[i]), max(limits[i]) + deltas[i], deltas[i]) with limits and deltas of the SAME i; "
-                       f"found {show(t)[:200]}")
-                if okg:
-                    ap = [s for s in lp[-1].body if isinstance(s, ast.Expr) and isinstance(s.value, ast.Call) and isinstance(s.value.func, ast.Attribute) and s.value.func.attr == "append"]
-                    okg = len(ap) == 1 and isinstance(ap[0].value.args[0], ast.Name) and ap[0].value.args[0].id == st.targets[0].id
-                    why = "each grid must be appended, in dimension order, to the list handed to cell_averaged_joint_pdf"
+        if isinstance(st, (ast.Assign, ast.Expr, ast.Return)):
+            for n_ in ast.walk(st):
+                if isinstance(n_, ast.Call) and isinstance(n_.func, ast.Attribute) and n_.func.attr == "cell_averaged_joint_pdf" and n_.args:
+                    grids.append(b2.term(n_.args[0], st))
+    for gt in grids:
+        if gt[0] == "comp" and gt[1] == "list" and not gt[5]:
+            t = gt[2]
+            ar = bind_arange(t)
+            i = ("idx", gt[3], "enumerate")
+            lim = ("sub", lim_attr, i)
+            dl = ("sub", del_attr, i)
+            why = (f"the grid of dimension i must be arange(min(limits[i]), max(limits[i]) + deltas[i], deltas[i]) with limits and deltas of the SAME i, "
+                   f"for i over enumerate(self.limits); found {show(t)[:200]} over {show(gt[4])[:60]}")
+            if ar is not None:
+                okg = gt[4] == ("call", G("enumerate"), (lim_attr,), ()) and ar["start"] in (("call", G("min"), (lim,), ()), ("call", G("numpy.min"), (lim,), ())) and ar["step"] == dl \
+                    and any(algebra.same(ar["stop"], ("bin", "+", ("call", mx, (lim,), ()), dl)) for mx in (G("max"), G("numpy.max")))
+        else:
+            why = f"the cell-centre grids must be built one per dimension from self.limits / self.deltas; found {show(gt)[:160]}"
     rep.check(okg, "C02.grid", f"{q2}:cell-centres", f2.where(), "grid_i = arange(min(limits[i]), max(limits[i]) + deltas[i], deltas[i])", why)
